@@ -534,8 +534,11 @@ Varable failures: {var_failed}
         # If subsetting replaces ('ROW', 'COL') ... for example with ('PERIM',)
         # remove the dimensions
         if deleterowcol:
-            del outf.dimensions['COL']
-            del outf.dimensions['ROW']
+            # a variable with only one of ROW / COL keeps that dimension
+            for dk in ('COL', 'ROW'):
+                if not any([dk in v.dimensions
+                            for v in outf.variables.values()]):
+                    del outf.dimensions[dk]
         else:
             # Update origins
             if 'COL' in kwds and 'COL' in outf.dimensions:
